@@ -483,7 +483,7 @@ def build_delta(src_size, dest_size, ops, src_bytes=1, dest_bytes=1):
 SIZES = [0, 1, 127, 128, 0xFFFF, 0x10000, 1 << 31, (1 << 32) - 1, 1 << 32, 1 << 40, 1 << 62, 1 << 63, (1 << 64) - 1, (1 << 64) + 1, 1 << 70]
 
 
-MUTANT_KINDS = ["pad-src", "pad-dest", "dest-size", "src-size", "mask", "truncate", "opcode0", "overshoot", "valid", "v3-size", "tail"]
+MUTANT_KINDS = ["pad-src", "pad-dest", "dest-size", "src-size", "mask", "truncate", "opcode0", "overshoot", "valid", "v3-size", "tail", "past-end"]
 
 
 def mutant_strategy(kind=None):
@@ -536,6 +536,15 @@ def mutant_strategy(kind=None):
                 eff_size = sum(((size >> (8 * i)) & 0xFF) << (8 * i) for i in range(3) if mask & (0x10 << i)) or 0x10000
                 if eff_off + eff_size <= len(b):
                     dest = total + eff_size
+        elif kind == "past-end":
+            # a copy that starts inside the base and runs past its end, with the declared result size equal to what
+            # the ops *claim* (so only the range check can reject it); size 0 is the "0 means 0x10000" spelling
+            off = draw(st.integers(0, len(b)))
+            room = len(b) - off
+            size = draw(st.sampled_from([0, 0x10000, room + 1, room + draw(st.integers(1, 300)), 0xFFFF, 0xFFFFFF]))
+            claimed = size or 0x10000
+            ops.insert(draw(st.integers(0, len(ops))), ("copy", off, size))
+            dest = draw(st.sampled_from([total + claimed, total + claimed, total + room, total + claimed + 1]))
         elif kind == "opcode0":
             ops.insert(draw(st.integers(0, len(ops))), ("raw", b"\x00"))
         elif kind == "overshoot":
